@@ -239,11 +239,13 @@ func genNested(t *rapid.T) nestedCase {
 // (letter case, edge blanks, quoting, numeric spelling): the LAG/LEAD default, the LISTAGG separator
 // or the literal of a COALESCE(s, literal) argument. Each is a call of its own.
 func genNearDuplicates(t *rapid.T, call func(fns []string) anaCase) []anaCase {
-	kind := pick(t, "dupKind", []string{"lag_default_text", "lag_default_number", "listagg_separator", "coalesce_argument", "coalesce_argument"})
+	kind := pick(t, "dupKind", []string{"lag_default_text", "lag_default_number", "listagg_separator", "coalesce_argument", "coalesce_argument", "clause", "clause", "clause"})
 	var base anaCase
 	var variants []func(c *anaCase)
 	setDefault := func(v val.Val) func(c *anaCase) { return func(c *anaCase) { c.Default = v } }
 	switch kind {
+	case "clause":
+		return genClauseDuplicates(t, call)
 	case "lag_default_text", "lag_default_number":
 		base = call(lagFns)
 		base.HasK, base.HasDefault, base.IgnoreNulls = true, true, false
@@ -287,13 +289,154 @@ func genNearDuplicates(t *rapid.T, call func(fns []string) anaCase) []anaCase {
 	return out
 }
 
-// nearDuplicate: the two calls are the same except for a literal; the result names what differs.
+// clauseFrames: windowing clauses that differ in one bound, one offset or only in their spelling.
+var clauseFrames = []ref.AnaFrame{
+	{},
+	{Mode: "single", Lo: ref.AnaBound{Kind: "UP"}},
+	{Mode: "single", Lo: ref.AnaBound{Kind: "P", N: 1}},
+	{Mode: "single", Lo: ref.AnaBound{Kind: "P", N: 2}},
+	{Mode: "between", Lo: ref.AnaBound{Kind: "P", N: 1}, Hi: ref.AnaBound{Kind: "C"}},
+	{Mode: "between", Lo: ref.AnaBound{Kind: "P", N: 1}, Hi: ref.AnaBound{Kind: "F", N: 1}},
+	{Mode: "between", Lo: ref.AnaBound{Kind: "P", N: 1}, Hi: ref.AnaBound{Kind: "F", N: 2}},
+	{Mode: "between", Lo: ref.AnaBound{Kind: "C"}, Hi: ref.AnaBound{Kind: "F", N: 1}},
+	{Mode: "between", Lo: ref.AnaBound{Kind: "UP"}, Hi: ref.AnaBound{Kind: "F", N: 1}},
+	{Mode: "between", Lo: ref.AnaBound{Kind: "P", N: 1}, Hi: ref.AnaBound{Kind: "UF"}},
+}
+
+func cloneCall(c anaCase) anaCase {
+	d := c
+	d.Partition = append([]string(nil), c.Partition...)
+	d.Order = append([]orderItem(nil), c.Order...)
+	return d
+}
+
+// genClauseDuplicates: 2-3 calls of one function over one window that differ in one clause element only: the
+// windowing clause, IGNORE NULLS, DISTINCT, the direction or the NULLS position of an ORDER BY item, the numeric
+// argument (NTILE groups, NTH_VALUE n, LAG / LEAD offset) or the order of the PARTITION BY items. Each is a call of
+// its own with its own result column.
+func genClauseDuplicates(t *rapid.T, call func(fns []string) anaCase) []anaCase {
+	what := pick(t, "clauseKind", []string{"frame", "frame", "frame", "ignore_nulls", "distinct", "order_direction", "nulls_position", "number", "partition_order"})
+	var base anaCase
+	var variants []func(c *anaCase)
+	switch what {
+	case "frame":
+		base = call(append(append([]string(nil), valueFns...), aggFns...))
+		if !hasOrderCol(base, "id") {
+			base.Order = append(base.Order, orderItem{Col: "id"})
+		}
+		for _, f := range clauseFrames {
+			f := f
+			variants = append(variants, func(c *anaCase) { c.Frame = f })
+		}
+	case "ignore_nulls":
+		base = call(append(append([]string(nil), valueFns...), lagFns...))
+		if isIn(base.Fn, lagFns) && base.HasK && base.K == 0 {
+			base.K = 1
+		}
+		variants = []func(c *anaCase){func(c *anaCase) { c.IgnoreNulls = false }, func(c *anaCase) { c.IgnoreNulls = true }}
+	case "distinct":
+		base = call([]string{"COUNT", "SUM", "AVG", "MEDIAN", "USUM", "LISTAGG", "JSON_AGG", "STDEVP", "VARP"})
+		variants = []func(c *anaCase){func(c *anaCase) { c.Distinct = false }, func(c *anaCase) { c.Distinct = true }}
+	case "order_direction", "nulls_position":
+		base = call(allFns())
+		if base.Fn == "COUNT_STAR" {
+			base.Fn, base.Arg = "COUNT", "v"
+		}
+		if len(base.Order) == 0 || base.Order[0].Col == "id" {
+			base.Order = append([]orderItem{{Col: pick(t, "clauseOrderCol", []string{"o1", "o2"})}}, base.Order...)
+		}
+		if what == "order_direction" {
+			for _, d := range []string{"", "ASC", "DESC"} {
+				d := d
+				variants = append(variants, func(c *anaCase) { c.Order[0].Dir = d })
+			}
+		} else {
+			for _, np := range []string{"", "FIRST", "LAST"} {
+				np := np
+				variants = append(variants, func(c *anaCase) { c.Order[0].Nulls = np })
+			}
+		}
+	case "number":
+		base = call([]string{"NTILE", "NTH_VALUE", "LAG", "LEAD"})
+		base.HasK, base.IgnoreNulls = true, false
+		for _, k := range []int{1, 2, 3} {
+			k := k
+			variants = append(variants, func(c *anaCase) { c.K = k })
+		}
+	default: // partition_order
+		base = call(allFns())
+		base.Partition = []string{"p1", "p2"}
+		variants = []func(c *anaCase){func(c *anaCase) { c.Partition = []string{"p1", "p2"} }, func(c *anaCase) { c.Partition = []string{"p2", "p1"} }}
+	}
+	normalizeCall(&base)
+	n := pick(t, "nClauseDup", []int{2, 2, 3})
+	order := rapid.Permutation(variants).Draw(t, "clauseVariants")
+	var out []anaCase
+	for i := 0; i < len(order) && len(out) < n; i++ {
+		c := cloneCall(base)
+		order[i](&c)
+		normalizeCall(&c)
+		dup := false
+		for _, x := range out {
+			if fnSQL(x) == fnSQL(c) {
+				dup = true
+			}
+		}
+		if !dup {
+			out = append(out, c)
+		}
+	}
+	return out
+}
+
+// clauseDiff: the two calls are the same function and differ in one clause element only; the result names it.
+func clauseDiff(a, b anaCase) (string, bool) {
+	if a.Fn != b.Fn || fnSQL(a) == fnSQL(b) {
+		return "", false
+	}
+	same := func(f func(c *anaCase)) bool {
+		x, y := cloneCall(a), cloneCall(b)
+		f(&x)
+		f(&y)
+		return fnSQL(x) == fnSQL(y)
+	}
+	switch {
+	case same(func(c *anaCase) { c.Frame = ref.AnaFrame{} }):
+		return "frame", true
+	case same(func(c *anaCase) { c.IgnoreNulls = false }):
+		return "ignore_nulls", true
+	case same(func(c *anaCase) { c.Distinct = false }):
+		return "distinct", true
+	case same(func(c *anaCase) {
+		for i := range c.Order {
+			c.Order[i].Dir = ""
+		}
+	}):
+		return "order_direction", true
+	case same(func(c *anaCase) {
+		for i := range c.Order {
+			c.Order[i].Nulls = ""
+		}
+	}):
+		return "nulls_position", true
+	case same(func(c *anaCase) { c.K = 1 }):
+		return "number", true
+	case same(func(c *anaCase) { sort.Strings(c.Partition) }):
+		return "partition_order", true
+	}
+	return "", false
+}
+
+// nearDuplicate: the two calls are the same except for a literal or one clause element; the result names what differs.
 func nearDuplicate(a, b anaCase) (string, bool) {
 	x, y := a, b
 	x.Default, y.Default = val.Null, val.Null
 	x.Sep, y.Sep = "", ""
 	x.Arg, y.Arg = "", ""
 	if fnSQL(x) != fnSQL(y) || fnSQL(a) == fnSQL(b) {
+		if what, ok := clauseDiff(a, b); ok {
+			return "clause_" + what, true
+		}
 		return "", false
 	}
 	diff := func(p, q string) string {
@@ -809,7 +952,7 @@ func TestC17Nested(t *testing.T) {
 	fw.Run(t, fw.Spec[nestedCase]{
 		ID: "C17", Name: "nested", Quick: 8000, Thorough: 160000,
 		Gen: genNested, Check: checkNested,
-		Rule: "the tables and calls of the direct check, composed: the outer select list holds 1-3 analytic calls (60% of the later ones reuse the first call's PARTITION BY / ORDER BY); the source is the table or a derived table / CTE whose select list is *, all columns in order or a permutation, followed by 0-2 analytic columns a1, a2 (functions with exactly one admissible result), optionally with WHERE, ORDER BY id + OFFSET / LIMIT; the outer query optionally filters with WHERE (base columns or a1 IS [NOT] NULL) and its calls partition / order by the columns the inner calls used and by a1 / a2 themselves, or take them as argument; the reference evaluates inside-out (inner WHERE, inner analytic columns, ORDER BY id / OFFSET / LIMIT, outer WHERE, outer calls) and compares the surviving rows by id: base columns, inner columns exactly, every outer column with the evaluator of the direct check; non-trivial = nested with an inner analytic column, the first outer call has two or more partitions of two or more rows and an outer call shares a column with an inner call or uses a1/a2, or two or more outer calls sharing columns; distinct by (form, select-list form, inner functions, row-shifting operations, outer functions, use of a1/a2)",
+		Rule: "the tables and calls of the direct check, composed: the outer select list holds 1-3 analytic calls (60% of the later ones reuse the first call's PARTITION BY / ORDER BY); the source is the table or a derived table / CTE whose select list is *, all columns in order or a permutation, followed by 0-2 analytic columns a1, a2 (functions with exactly one admissible result), optionally with WHERE, ORDER BY id + OFFSET / LIMIT; in 20% the outer calls are 2-3 near-duplicates: one function over one window, differing only in a literal (letter case, blanks, quoting, numeric spelling of the LAG / LEAD default, the LISTAGG separator, a COALESCE argument) or in one clause element (windowing clause, IGNORE NULLS, DISTINCT, direction or NULLS position of an ORDER BY item, NTILE / NTH_VALUE / LAG / LEAD number, order of the PARTITION BY items) - each must keep its own result column; the outer query optionally filters with WHERE (base columns or a1 IS [NOT] NULL) and its calls partition / order by the columns the inner calls used and by a1 / a2 themselves, or take them as argument; the reference evaluates inside-out (inner WHERE, inner analytic columns, ORDER BY id / OFFSET / LIMIT, outer WHERE, outer calls) and compares the surviving rows by id: base columns, inner columns exactly, every outer column with the evaluator of the direct check; non-trivial = nested with an inner analytic column, the first outer call has two or more partitions of two or more rows and an outer call shares a column with an inner call or uses a1/a2, or two or more outer calls sharing columns; distinct by (form, select-list form, inner functions, row-shifting operations, outer functions, use of a1/a2)",
 		Assumptions: []string{
 			"inner LIMIT / OFFSET are generated only together with ORDER BY id (otherwise the kept rows are not determined)",
 			"inner analytic columns are restricted to calls with one admissible result (no open reading, unique order where the order matters) of integer or value type; cases where an inner column used as outer ORDER BY key or numeric argument is not of one type are discarded",
